@@ -150,6 +150,11 @@ func makeMessageFieldCoder(fd protoreflect.FieldDescriptor, ft reflect.Type) poi
 				return appendMessage(b, m, f.wiretag, opts)
 			},
 			unmarshal: func(b []byte, p pointer, wtyp protowire.Type, f *coderFieldInfo, opts unmarshalOptions) (unmarshalOutput, error) {
+				if wtyp != protowire.BytesType {
+					// Not this field's encoding: keep it as an unknown field
+					// without allocating (and thereby populating) the message.
+					return unmarshalOutput{}, errUnknown
+				}
 				mp := p.AsValueOf(ft).Elem()
 				if mp.IsNil() {
 					mp.Set(reflect.New(ft.Elem()))
@@ -319,6 +324,11 @@ func makeGroupFieldCoder(fd protoreflect.FieldDescriptor, ft reflect.Type) point
 				return appendGroup(b, m, f.wiretag, opts)
 			},
 			unmarshal: func(b []byte, p pointer, wtyp protowire.Type, f *coderFieldInfo, opts unmarshalOptions) (unmarshalOutput, error) {
+				if wtyp != protowire.StartGroupType {
+					// Not this field's encoding: keep it as an unknown field
+					// without allocating (and thereby populating) the message.
+					return unmarshalOutput{}, errUnknown
+				}
 				mp := p.AsValueOf(ft).Elem()
 				if mp.IsNil() {
 					mp.Set(reflect.New(ft.Elem()))
